@@ -72,6 +72,17 @@ def main():
                     "CONSTANTS\n" + toy_curve_consts(p, d, zeta) + (" R = %d\n Mode = \"%s\"\n" % (r, mode)) + INT_OPS +
                     "INIT Init\nNEXT Next\nINVARIANT %s\nCHECK_DEADLOCK FALSE\n" % inv)
                 index.append(name)
+    # C09: square-root routines on fields of larger two-adicity; (p, W)
+    for (p, w) in [(97, 2), (193, 2), (193, 4), (257, 3), (641, 3), (769, 3), (769, 5)]:
+        zs = nonres(p)
+        for mode in ["sarkar", "tonelli"]:
+            if mode == "tonelli" and w != [ww for (pp, ww) in [(97, 2), (193, 2), (257, 3), (641, 3), (769, 3)] if pp == p][0]:
+                continue
+            name = "MC_Sqrt_p%d_w%d_%s.cfg" % (p, w, mode)
+            open(os.path.join(spec, "cfg", name), "w").write(
+                "CONSTANTS\n P = %d\n Zeta = %d\n TwoAdicity = %d\n W = %d\n Nr = %d\n Mode = \"%s\"\n" % (p, zs[len(zs)//3], twoad(p), w, zs[0], mode)
+                + INT_OPS + "INIT Init\nNEXT Next\nINVARIANT %s\nCHECK_DEADLOCK FALSE\n" % ("InvSarkar" if mode == "sarkar" else "InvTonelli"))
+            index.append(name)
     open(os.path.join(spec, "cfg", "INDEX"), "w").write("\n".join(index) + "\n")
 if __name__ == "__main__":
     main()
